@@ -211,3 +211,23 @@ Proof.
   destruct (Z.leb_spec (p - now) default); [|reflexivity]. f_equal. rewrite Z.min_l; [reflexivity|].
   apply Z.le_sub_le_add_l. assumption.
 Qed.
+
+(* (9) seeded change C04-5: fx.DoWithTimeout returns context.Cause(ctx) instead of ctx.Err()
+   in its ctx.Done() branch.  Errors as in Check.v: -1 = context.DeadlineExceeded,
+   -2 = context.Canceled, positive = somebody's own error value.  A caller-supplied context
+   may carry a custom cancel cause (WithCancelCause / WithDeadlineCause); ctx.Err() never
+   shows it, context.Cause does. *)
+Definition timeout_error (k : kind) : Z := match k with KDeadline => -1 | KCancel => -2 end.
+
+Definition cause_error (custom : option Z) (k : kind) : Z :=
+  match custom with Some c => c | None => timeout_error k end.
+
+(* what the caller gets when the timeout branch is taken: with a custom cause it is neither
+   of the two timeout errors (nor, the work being still parked, a result of the work) *)
+Theorem cause_instead_of_err_refuted :
+  exists custom k, 0 < cause_error custom k /\ forall k', cause_error custom k <> timeout_error k'.
+Proof. exists (Some 9), KCancel. split; [reflexivity|]. intros [|]; discriminate. Qed.
+
+(* ... and it is indistinguishable for every context without a custom cause *)
+Theorem cause_same_without_custom_cause : forall k, cause_error None k = timeout_error k.
+Proof. reflexivity. Qed.
